@@ -431,6 +431,33 @@ def run_insitu(ctx, spec):
                     case['file'], vb[k] if k < len(vb) else None, va[k] if k < len(va) else None), case)
         os.remove(cut)
         report(ctx, mon, case)
+    # a number the reader returns must also reach the object: TOUGHREACT restart files carry three permeabilities per
+    # block; a Fortran-written ZERO there (in any rendering) is a value, only a blank field means "not given"
+    zeros = [' 0.00000000E+00', ' 0.00000000D+00', '            0.0', '             0.', '             .0', '              0', '-0.00000000E+00']
+    for zi, z in enumerate(zeros):
+        case = {'kind': 'incon-with-zero-permeability', 'rendering': z}
+        lines = ['INCON']
+        want = {}
+        for b in range(3):
+            name = '  a%2d' % (b + 1)
+            perm = [' 6.51000000E-14', ' 3.25500000E-14', ' 1.00000000E-15']
+            perm[(zi + b) % 3] = z
+            lines.append(name + ' ' * 10 + ' 1.00000000E-01' + ''.join(perm))
+            lines.append(' 1.0130000000000E+05 2.0000000000000E+01')
+            want[name] = [FR.ref_float(x, None)[1] for x in perm]
+        lines += ['', '']
+        fn = os.path.join(ctx.tmp, 'c16_zero_perm.incon')
+        with open(fn, 'w') as fh:
+            fh.write('\n'.join(lines))
+        with ctx.guard(case, where='insitu-incon-zero-permeability'):
+            inc = R.t2incons.t2incon(fn)
+            ctx.count('zero_permeability_fields_read', 3)
+            for name, exp in want.items():
+                got = inc[name].permeability
+                if got is None or [float(x) for x in got] != [float(x) for x in exp]:
+                    ctx.violation('wrong-value:zero-read-as-absent', 'block %r permeability fields %r read as %r, Fortran reads %r' % (name, z, got, exp), case)
+                    break
+        report(ctx, mon, case)
     for f in listings:
         case = {'file': os.path.relpath(f, REPO), 'kind': 'listing'}
         n0 = mon.nf + mon.ni
